@@ -41,12 +41,28 @@ Proof.
   - destruct (is_coroutine _); apply IH; try assumption; discriminate.
 Qed.
 
+(* the same for the turns of the loop of _emit ([hand]: the hand-over, or nothing but a release for a child that left) *)
+Lemma hand_no_fuel emitfrom g depth n x m :
+  forall l, (forall d, In d l -> forall w y my, snd (emitfrom d w y my) <> SFuel) ->
+  forall w s, s <> SFuel -> snd (fold_left (hand emitfrom g depth n x m) l (w, s)) <> SFuel.
+Proof.
+  induction l as [|d t IH]; intros He w s Hs; cbn [fold_left]; [exact Hs|].
+  assert (He' : forall d', In d' t -> forall w y my, snd (emitfrom d' w y my) <> SFuel)
+    by (intros d' Hd'; apply He; right; exact Hd').
+  destruct (hand_cases emitfrom g depth n x m w s d) as [E|[_ [_ E]]]; rewrite E.
+  - assert (He1 : forall d', In d' [d] -> forall w y my, snd (emitfrom d' w y my) <> SFuel)
+      by (intros d' [<-|[]]; apply He; left; reflexivity).
+    pose proof (deliver_no_fuel emitfrom g depth n x m [d] He1 w s Hs) as X.
+    cbn [fold_left] in X. destruct (deliver emitfrom g depth n x m (w, s) d) as [w1 s1]. apply IH; assumption.
+  - apply IH; assumption.
+Qed.
+
 Theorem push_fuel_enough g : wf_dag g ->
   forall fuel depth n w x m, length g < fuel + n -> 0 < fuel ->
   snd (push fuel g depth n w x m) <> SFuel.
 Proof.
   intros Hdag. induction fuel as [|fuel IH]; intros depth n w x m Hf Hpos; [lia|].
-  cbn [push]. apply deliver_no_fuel; [|discriminate].
+  cbn [push]. apply hand_no_fuel; [|discriminate].
   intros d Hd w' y my. apply downs_is_down in Hd. apply is_down_In in Hd as [Hlt Hin].
   pose proof (Hdag d n Hlt Hin) as Hnd. assert (A1 : length g < fuel + d) by lia. assert (A2 : 0 < fuel) by lia. exact (IH (S depth) d w' y my A1 A2).
 Qed.
